@@ -86,6 +86,28 @@ Section SeederModel.
     | o :: t => let (w1, out1) := prog_step w o in
                 let (w2, out2) := prog_run w1 t in (w2, out1 ++ out2)
     end.
+  (* ---- threads.  Library calls made by threads that run one after the other (worker started and
+     joined) form one sequence; [TOn t o] is operation o executed by thread t. ---- *)
+  Inductive tpop := TOn (t : nat) (o : pop).
+  Definition erase_thread (x : tpop) : pop := match x with TOn _ o => o end.
+  (* src: src/Seeder.cpp: `Seeder Seeder::instance_;` is ONE object for the whole process: the thread is irrelevant *)
+  Definition tprog_run (w : sworld) (p : list tpop) : sworld * list N := prog_run w (map erase_thread p).
+
+  (* NOT the library's code: the variant with `static thread_local Seeder instance_` — one Seeder per thread,
+     each lazily seeded from the clock; objects are shared *)
+  Record tl_world := { tl_seeder : nat -> seeder; tl_objs : list state }.
+  Definition tl_set (f : nat -> seeder) (t : nat) (s : seeder) : nat -> seeder := fun u => if Nat.eqb u t then s else f u.
+  Definition tl_step (w : tl_world) (x : tpop) : tl_world * list N :=
+    match x with
+    | TOn t o =>
+      let '(w', out) := prog_step {| w_seeder := tl_seeder w t; w_objs := tl_objs w |} o in
+      ({| tl_seeder := tl_set (tl_seeder w) t (w_seeder w'); tl_objs := w_objs w' |}, out)
+    end.
+  Fixpoint tl_run (w : tl_world) (p : list tpop) : tl_world * list N :=
+    match p with
+    | [] => (w, [])
+    | x :: t => let (w1, o1) := tl_step w x in let (w2, o2) := tl_run w1 t in (w2, o1 ++ o2)
+    end.
 End SeederModel.
 
 
@@ -408,6 +430,17 @@ Section AmdpModel.
   (* the repaired code as a world-passing function (it has no carrier left) *)
   Definition amdp_disc_fixed (w : option Q) (S buckets_ : nat) (b : vec) : option Q * nat :=
     (w, amdp_disc S buckets_ b).
+  (* ---- the Discretizer as a value that outlives the call that made it ---- *)
+  (* src: AMDP { size_t beliefSize_, buckets_; } *)
+  Record amdp_obj := { a_beliefSize : nat; a_buckets : nat }.
+  (* a returned closure is called later, when the producing object may have been reconfigured: it is
+     modelled as a function of the producing object's CURRENT state and the belief *)
+  Definition amdp_closure := amdp_obj -> vec -> nat.
+  (* src: AMDP::makeDiscretizer: `const auto buckets = buckets_ - 1; return [S, buckets](const Belief & b) {…}`
+     — S and the bucket count are captured BY VALUE at creation time *)
+  Definition amdp_make (o : amdp_obj) (S : nat) : amdp_closure := fun _ b => amdp_disc S (a_buckets o) b.
+  (* NOT the library's code: a lambda capturing `this` reads buckets_ when it is called *)
+  Definition amdp_make_this (o : amdp_obj) (S : nat) : amdp_closure := fun cur b => amdp_disc S (a_buckets cur) b.
 End AmdpModel.
 
 (* exact base-2 logarithm on powers of two (2^k, 2^-k), 0 elsewhere: used to run the discretizer
